@@ -418,7 +418,8 @@ func raceSignature(report string) (string, string) {
 			fn = f + "@" + file
 			break
 		}
-		tops = append(tops, strings.ToLower(kind)+":"+fn)
+		_ = kind // which of the two accesses the detector happened to see first is schedule noise: not part of the signature
+		tops = append(tops, fn)
 		if len(tops) == 2 {
 			break
 		}
@@ -648,6 +649,19 @@ func main() {
 		}
 		// fresh-process replay must reproduce the signature
 		ro, err := replayOnce(bin, prop, path)
+		if tc.race && (err != nil || !hasSig(ro, sig)) {
+			// a worker halted by the detector can leave the last completed run's line cut off, which shifts
+			// the attribution of the report by one run: try the neighbouring run indices of that worker
+			for _, d := range []int64{-int64(tc.workers), int64(tc.workers)} {
+				rf["index"] = o.Index + d
+				b2, _ := json.MarshalIndent(rf, "", " ")
+				os.WriteFile(path, b2, 0o644)
+				if r2, e2 := replayOnce(bin, prop, path); e2 == nil && hasSig(r2, sig) {
+					ro, err = r2, nil
+					break
+				}
+			}
+		}
 		if err != nil || !hasSig(ro, sig) {
 			unconfirmed++
 			fmt.Fprintf(os.Stderr, "vcheck: violation %s (seed %d) did not reproduce on replay: %v\n", sig, o.Seed, err)
